@@ -536,6 +536,9 @@ def alphabet(m):
     add("gpr", "gene_reaction_rule:existing-genes", True, r=rB.id, rule=" and ".join(ro["genes"][:2]) or "gN1")
     add("gpr", "gene_reaction_rule:new-genes", True, r=rA.id, rule="gN1 or (%s and gN2)" % (gA or "gN3"))
     add("gpr", "gene_reaction_rule:new-genes", r=rO.id, rule="gN1")
+    # the same shape with the two new genes swapped: the order in which genes are created follows the iteration order
+    # of a set of strings (PYTHONHASHSEED); one of the two spellings meets either order
+    add("gpr", "gene_reaction_rule:new-genes", True, r=rA.id, rule="gN2 or (%s and gN1)" % (gA or "gN3"))
     add("gpr_obj", "gpr:new-genes", True, r=rA.id, rule="gN4 and gN1")
     add("build_reaction_from_string", "build_reaction_from_string", True, r=rA.id,
         s="%s + 2 brs_c --> %s" % (mA.id, (mB or mA).id))
@@ -569,6 +572,8 @@ def alphabet(m):
         add("remove_metabolites", "remove_metabolites", ms=[mA.id, mB.id])
         add("m_remove_from_model", "metabolite.remove_from_model:destructive", m=mB.id, destructive=True)
     add("m_remove_from_model", "metabolite.remove_from_model", m=mA.id)
+    # a metabolite that only exists once `r += fresh reaction` / `r -= fresh reaction` has brought it into the model
+    add("remove_metabolites", "remove_metabolites:brought-by-iadd", True, ms=["new3_c"])
     ext = [x for x in m.metabolites if x.compartment == "e"]
     intl = [x for x in m.metabolites if x.compartment != "e"]
     if ext:
@@ -1235,6 +1240,42 @@ def repair_remove_reactions_objective():
 
 
 @contextlib.contextmanager
+def repair_gene_creation_undo():
+    """update_genes_from_gpr records `remove_genes(model, [new_gene], remove_reactions=False)` as the undo of creating
+    a gene; remove_genes rewrites the rules of all reactions and re-derives their genes, in the middle of the replay.
+    The undo only has to take the gene out of `model.genes` (what the comment in the source suggests)."""
+    import cobra.core.reaction as cr
+    orig = cr.remove_genes
+
+    def light(model, gene_list, remove_reactions=True):
+        for g in gene_list:
+            if model.genes.has_id(g.id) and model.genes.get_by_id(g.id) is g:
+                model.genes.remove(g)
+    cr.remove_genes = light
+    try:
+        yield
+    finally:
+        cr.remove_genes = orig
+
+
+@contextlib.contextmanager
+def repair_undo_owns_its_dict():
+    """Reaction.add_metabolites keeps the caller's dict in the recorded undo.  `r += other` passes the *live*
+    `other._metabolites`; a model-less `other` stays in the `.reactions` of the metabolites it shares with `r` (C12), so a
+    later remove_metabolites edits `other._metabolites` - and with it the recorded undo.  Record a private copy."""
+    from cobra.core.reaction import Reaction
+    orig = Reaction.add_metabolites
+
+    def patched(self, metabolites_to_add, combine=True, reversibly=True):
+        return orig(self, dict(metabolites_to_add), combine=combine, reversibly=reversibly)
+    Reaction.add_metabolites = patched
+    try:
+        yield
+    finally:
+        Reaction.add_metabolites = orig
+
+
+@contextlib.contextmanager
 def repair_fix_objective():
     """fix_objective_as_constraint: drop an existing constraint of the same name through the context-aware
     remove_cons_vars_from_problem instead of `model.solver.remove`."""
@@ -1341,6 +1382,16 @@ def _can_fix(case):
     return n >= 2
 
 
+def _can_gene_creation(case):
+    ops = ops_of(case["prog"])
+    return len(ops) >= 2 and any(o["op"] in ("gpr", "gpr_obj", "iadd", "add_reactions", "merge", "rename_genes") for o in ops)
+
+
+def _can_iadd_aliasing(case):
+    ops = ops_of(case["prog"])
+    return any(o["op"] in ("iadd", "isub") and "new" in o["other"] and i < len(ops) - 1 for i, o in enumerate(ops))
+
+
 def _can_groups(case):
     return bool(case["model"].get("args", {}).get("group")) and any(_removes_elements(o) for o in ops_of(case["prog"]))
 
@@ -1356,6 +1407,8 @@ REPAIRS = [
     ("variable-removal:column-not-restored", repair_variable_removal, _can_column),
     ("fix_objective_as_constraint:replaced-constraint-not-recorded", repair_fix_objective, _can_fix),
     ("groups:membership-not-restored", repair_group_membership, _can_groups),
+    ("gene-creation:undone-by-remove_genes", repair_gene_creation_undo, _can_gene_creation),
+    ("add_metabolites:undo-keeps-the-caller's-dict", repair_undo_owns_its_dict, _can_iadd_aliasing),
 ]
 
 
